@@ -917,7 +917,9 @@ class Engine:
     def fmt_value(self,run,kind,val):
         """bytes of one format argument -> (byte list, tainted?)"""
         d=deref(val)
-        if kind=='debug': return list(b'<dbg>'),True
+        if kind=='debug':
+            if isinstance(d,(Str,StringO)) and not d.taint: return self.debug_str(run,d.b),False
+            return list(b'<dbg>'),True
         if kind in ('lower_hex','upper_hex'):
             # {:x} / {:X} without width or fill (a template with a width uses opcodes the template decoder rejects as Unsupported)
             if not isinstance(d,Int): raise Unsupported('hex formatting of '+repr(d)[:40])
@@ -942,6 +944,45 @@ class Engine:
             return list(render_delayed(self,run,d).encode()),False
         if isinstance(d,Opaque): return list(b'<opaque>'),True
         raise Unsupported('fmt_value '+repr(d)[:60])
+
+def _debug_str(self,run,bs):
+    """`{:?}` of a str (core::fmt `<str as Debug>`): quotes, \\ \" \t \r \n \0 escapes, `\\u{..}` for characters that are not printable
+    or extend a grapheme (approximated from Python's unicodedata: categories C*, Z* other than space, Mn, Me), everything else raw.
+    Symbolic bytes are taken to be ASCII when they can be (a symbolic byte >= 0x80 is passed through raw)."""
+    import unicodedata
+    out=[0x22]
+    def esc_cp(cp): return list(('\\u{%x}'%cp).encode())
+    conc=all(isinstance(x,int) for x in bs)
+    if conc:
+        for ch in bytes(bs).decode(errors='replace'):
+            cp=ord(ch)
+            if ch=='"': out+=[0x5c,0x22]
+            elif ch=='\\': out+=[0x5c,0x5c]
+            elif ch=='\t': out+=[0x5c,0x74]
+            elif ch=='\r': out+=[0x5c,0x72]
+            elif ch=='\n': out+=[0x5c,0x6e]
+            elif cp==0: out+=[0x5c,0x30]
+            elif unicodedata.category(ch) in ('Mn','Me') or (not ch.isprintable() and ch!=' '): out+=esc_cp(cp)
+            else: out+=list(ch.encode())
+        return out+[0x22]
+    for x in bs:
+        if isinstance(x,int):
+            if x>=0x80: out.append(x); continue
+            out+=_debug_str(self,run,[x])[1:-1]; continue
+        def is_(c): return run.branch_bool(Bool(x==c),'debug.char')
+        if is_(0x22): out+=[0x5c,0x22]
+        elif is_(0x5c): out+=[0x5c,0x5c]
+        elif is_(0x09): out+=[0x5c,0x74]
+        elif is_(0x0d): out+=[0x5c,0x72]
+        elif is_(0x0a): out+=[0x5c,0x6e]
+        elif is_(0): out+=[0x5c,0x30]
+        elif run.branch_bool(Bool(z3.Or(z3.ULT(x,0x20),x==0x7f)),'debug.control'):
+            from .models import hex_char
+            if run.branch_bool(Bool(z3.ULT(x,16)),'debug.onedigit'): out+=[0x5c,0x75,0x7b,z3.simplify(hex_char(x&0x0f)),0x7d]
+            else: out+=[0x5c,0x75,0x7b,z3.simplify(hex_char(z3.LShR(x,4))),z3.simplify(hex_char(x&0x0f)),0x7d]
+        else: out.append(x)
+    return out+[0x22]
+Engine.debug_str=_debug_str
 
 def ref1(v):
     """a single-level reference to the (non-reference) value behind v"""
